@@ -452,6 +452,47 @@ var families = []family{
 		}
 		return out
 	}},
+	{"lcg-scatter", func(n int) []geometry.Point {
+		// a fixed irregular layout (linear congruential sequence, no run-time randomness)
+		out := make([]geometry.Point, n)
+		x := uint64(0x9E3779B97F4A7C15)
+		next := func() float64 {
+			x = x*6364136223846793005 + 1442695040888963407
+			return float64(x>>40) / float64(1<<24)
+		}
+		for i := range out {
+			out[i] = geometry.Point{X: next()*1000 - 500, Y: next()*600 - 300}
+		}
+		return out
+	}},
+	{"lcg-mixed-scale", func(n int) []geometry.Point {
+		// mostly tiny steps with occasional long jumps: segments of very different sizes,
+		// many of them crossing the root midlines of a quadtree
+		out := make([]geometry.Point, n)
+		x := uint64(12345)
+		next := func() float64 {
+			x = x*6364136223846793005 + 1442695040888963407
+			return float64(x>>40)/float64(1<<24) - 0.5
+		}
+		px, py := 0.0, 0.0
+		for i := range out {
+			s := 0.01
+			if i%37 == 0 {
+				s = 400
+			} else if i%5 == 0 {
+				s = 3
+			}
+			px, py = px+next()*s, py+next()*s
+			if px > 500 || px < -500 {
+				px = -px / 2
+			}
+			if py > 500 || py < -500 {
+				py = -py / 2
+			}
+			out[i] = geometry.Point{X: px, Y: py}
+		}
+		return out
+	}},
 	{"grid-walk", func(n int) []geometry.Point {
 		out := make([]geometry.Point, n)
 		for i := range out {
@@ -578,7 +619,7 @@ func seriesCase(pts []geometry.Point, closed bool) rt.Case {
 }
 
 func runC04(r *rt.Run) {
-	r.Rule = "insert histories: every point sequence up to a depth over small lattices; 13 layout families x sizes crossing every structural threshold x <=1 (thorough <=2 for n<=66) displaced points at every position x 25 targets; each under {r-tree, quadtree} x MinPoints {1, n, n+1}, open and closed; probes: grid of query rectangles incl. infinite bounds and 1-ulp neighbours x every early-stop position; then predicate answers under every index and after Move; non-trivial = series with at least one segment"
+	r.Rule = "insert histories: every point sequence up to a depth over small lattices; 15 layout families x sizes crossing every structural threshold x <=1 (thorough <=2 for n<=66) displaced points at every position x 25 targets; each under {r-tree, quadtree} x MinPoints {1, n, n+1}, open and closed; probes: grid of query rectangles incl. infinite bounds and 1-ulp neighbours x every early-stop position; then predicate answers under every index and after Move; non-trivial = series with at least one segment"
 	r.Assume = []string{"oracle: brute force over SegmentAt(i).Rect() by definition", "index bytes are decoded only to measure which encodings occurred"}
 	var stats idxStats
 	r.Describe = runC04Describe
